@@ -15,6 +15,7 @@ import (
 	"github.com/a-h/templ"
 	"github.com/a-h/templ/zzverif/kernel"
 	"github.com/a-h/templ/zzverif/shim/simsync"
+	simatomic "github.com/a-h/templ/zzverif/shim/simsync/atomic"
 	"github.com/a-h/templ/zzverif/worlds/render/corpus"
 )
 
@@ -96,7 +97,60 @@ func newUniverse(nOnce int) *Universe {
 // under test is neither running nor parked, and the unlocker makes it running again.
 func lockAware(k *kernel.Kernel) func() {
 	simsync.SetBlockHooks(&simsync.BlockHooks{Begin: k.BlockBegin, Resume: k.BlockResume})
-	return func() { simsync.SetBlockHooks(nil) }
+	// every atomic operation of the code under test is a seam for named tasks
+	simatomic.SetYield(func(op string) { k.YieldCurrent("atomic", op) })
+	return func() { simsync.SetBlockHooks(nil); simatomic.SetYield(nil) }
+}
+
+// picker chooses the task to release. Uniform choice alone makes long starvation of one
+// task (held at a seam while another runs through many steps) exponentially unlikely, and
+// that is the shape many lost-update bugs need; so the discipline itself is drawn per run:
+// uniform, sticky (the task that ran last keeps running) or starving (one task is held back).
+type picker struct {
+	mode   int
+	last   string
+	victim string
+}
+
+func newPicker(t *kernel.Tape) *picker {
+	return &picker{mode: []int{0, 0, 1, 2}[t.Choose(4, "sched-discipline")]}
+}
+
+func (p *picker) pick(t *kernel.Tape, ps []*kernel.Parked) int {
+	uniform := func() int { return t.Choose(len(ps), "sched") }
+	i := -1
+	switch p.mode {
+	case 1:
+		if p.last != "" && t.Chance(7, 8, "stay") {
+			for j, q := range ps {
+				if q.Name == p.last {
+					i = j
+				}
+			}
+		}
+	case 2:
+		if p.victim == "" && t.Chance(1, 6, "choose-victim") {
+			p.victim = ps[t.Choose(len(ps), "victim")].Name
+		} else if p.victim != "" && t.Chance(1, 24, "free-victim") {
+			p.victim = ""
+		}
+		if p.victim != "" {
+			var others []int
+			for j, q := range ps {
+				if q.Name != p.victim {
+					others = append(others, j)
+				}
+			}
+			if len(others) > 0 {
+				i = others[t.Choose(len(others), "sched-others")]
+			}
+		}
+	}
+	if i < 0 {
+		i = uniform()
+	}
+	p.last = ps[i].Name
+	return i
 }
 
 // Env is the per-render environment of the simulated expression bodies.
